@@ -57,8 +57,14 @@ def varTokens (var : XmlVar) : Bool :=
       | [.prim t] => t != .qname
       | _ => false)
 
+/-- a compound field (`Elements`): a list whose items are spread over several choices -/
+def varComp (var : XmlVar) : Bool :=
+  var.isElements && var.listElement && !var.isAttributes && !var.isWildcard && !var.tokens && !var.isClazzUnion
+  && !var.elements.isEmpty && (wrapperName var.toVarCore).isNone
+
 /-- the shapes of var the round-trip theorem covers -/
-def varOKj (var : XmlVar) : Bool := varTyped var || varAttrs var || varWild var || varTokens var
+def varOKj (var : XmlVar) : Bool :=
+  varTyped var || varAttrs var || varWild var || varTokens var || varComp var
 
 /-- the key sets by which the decoder recognises generic elements must not be hit by accident:
 a user class emits neither `qname` nor `children`; the generic class `AnyElement` itself emits only
@@ -152,6 +158,25 @@ def wildItemOKj (ok : ClassId → Val → Bool) (x : Val) : Bool :=
   | .any .. => ok anyId x
   | _ => false
 
+/-- one item of a compound field: a primitive for which `find_value_choice` finds a choice that
+declares the primitive's own type (exact type first), or a model instance whose keys single out
+its class among the classes of the choices -/
+def compItemOKj (e : BEnv) (ok : ClassId → Val → Bool) (Γ : Ctx) (fac : Factory) (var : XmlVar) (x : Val) : Bool :=
+  match x with
+  | .prim p =>
+    pvalType p != .qname &&
+    (match findValueChoice e var (encPrim p) with
+     | .ok (some el) => !el.tokens && !el.anyType && !el.isWildcard && el.types.contains (.prim (pvalType p))
+     | _ => false)
+  | .obj k' _ => ok k' x && (varElementTypes var).filter (localNamesMatch Γ (encKeys Γ fac x)) == [k']
+  | _ => false
+
+/-- the value of a compound field -/
+def compValueOKj (e : BEnv) (ok : ClassId → Val → Bool) (Γ : Ctx) (fac : Factory) (var : XmlVar) (x : Val) : Bool :=
+  match x with
+  | .list items => items.all (compItemOKj e ok Γ fac var)
+  | _ => false
+
 /-- the value of a typed field -/
 def typedValueOKj (e : BEnv) (ok : ClassId → Val → Bool) (Γ : Ctx) (fac : Factory) (var : XmlVar) (x : Val) : Bool :=
   if var.listElement then
@@ -191,6 +216,7 @@ def valueOKj (e : BEnv) (ok : ClassId → Val → Bool) (Γ : Ctx) (fac : Factor
   if var.isAttributes then attrsValueOKj x
   else if var.isWildcard then wildValueOKj ok var x
   else if var.tokens then tokensValueOKj e var x
+  else if var.isElements then compValueOKj e ok Γ fac var x
   else typedValueOKj e ok Γ fac var x
 
 def fixedOK (e : BEnv) (var : XmlVar) (x : Val) : Bool :=
@@ -266,10 +292,11 @@ def typedValueOKu (e : BEnv) (ok : ClassId → Val → Bool) (Γ : Ctx) (var : X
      | .list _ => false
      | _ => itemOKu e ok Γ var x)
 
-def valueOKu (e : BEnv) (ok : ClassId → Val → Bool) (Γ : Ctx) (var : XmlVar) (x : Val) : Bool :=
+def valueOKu (e : BEnv) (ok : ClassId → Val → Bool) (Γ : Ctx) (fac : Factory) (var : XmlVar) (x : Val) : Bool :=
   if var.isAttributes then attrsValueOKj x
   else if var.isWildcard then wildValueOKj ok var x
   else if var.tokens then tokensValueOKj e var x
+  else if var.isElements then compValueOKj e ok Γ fac var x
   else typedValueOKu e ok Γ var x
 
 /-- `valOKj` without its per-instance ambiguity condition: only typing -/
@@ -286,7 +313,7 @@ def valOKu (e : BEnv) (Γ : Ctx) (fac : Factory) : Nat → ClassId → Val → B
          && fs.map (·.1) == ci.fields.map (·.name)
          && (allVars m).all (fun var =>
               match kvGet fs var.name with
-              | some x => valueOKu e (valOKu e Γ fac n) Γ var x && (var.init || fixedOK e var x)
+              | some x => valueOKu e (valOKu e Γ fac n) Γ fac var x && (var.init || fixedOK e var x)
               | none => false)
          && fs.all (fun kv => ci.fields.all (fun f => f.name != kv.1 ||
               (if f.init then keptBy fac kv.2 || defaultIs f .none else defaultIs f kv.2)))
